@@ -1,10 +1,10 @@
 #!/bin/bash
-# usage: process_seed.sh C04   -> verifies the seed in /tmp/wt-C04, runs all checks on it, archives under /verif/seeded/C04
+# usage: process_seed.sh C04b   -> verifies the seed in /tmp/wt-C04b, runs all checks on it, archives under /verif/seeded/C04b
 ID=$1; LOW=$(echo $ID | tr 'A-Z' 'a-z'); WT=/tmp/wt-$ID; DEMO=demo_$LOW
 OUT=/verif/seeded/$ID; mkdir -p $OUT
 /verif/selftest/verify_seed.sh $WT $DEMO > $OUT/verify.log 2>&1
 rm -f $WT/tests/$DEMO.rs   # the analysed tree = library change only
 cd /verif && ./check ALL --repo $WT > $OUT/check.log 2>&1
-tail -1 $OUT/check.log | cut -c1-900
+tail -1 $OUT/check.log | cut -c1-1200
 cp $WT/_out/patch.diff $OUT/patch.diff; cp $WT/_out/$DEMO.rs $OUT/; cp $WT/_out/meta.txt $OUT/agent_meta.txt
-grep -E "test result|== " $OUT/verify.log | tr '\n' ' ' | cut -c1-600; echo
+grep -E "^(SUITE|DEMO)_" $OUT/verify.log | tr '\n' ' '; echo
